@@ -294,9 +294,10 @@ def run(chk: Check) -> None:
     # (b) graph families
     fam = [(["A", "B"], 2 if not thorough else 3), (["User", "UserGroup"], 2), (["Node", "NodeItem"], 2)]
     if not thorough:
-        fam = [(["A", "B"], 2), (["User", "UserGroup"], 1), (["Node", "NodeItem"], 1)]
+        # two-edge graphs for the 'Item'-synthetic names too (Order -> LineItem -> Order is a two-step cycle), plain reference kinds only
+        fam = [(["A", "B"], 2), (["User", "UserGroup"], 1), (["Node", "NodeItem"], 2)]
     for names, k in fam:
-        docs = gen_graphs(chk, names, ALL_KINDS + (LEAF_KINDS if names == ["A", "B"] else []), k)
+        docs = gen_graphs(chk, names, ["ref", "arr", "inline", "allOf", "map"] if (names == ["Node", "NodeItem"] and k == 2 and not thorough) else ALL_KINDS + (LEAF_KINDS if names == ["A", "B"] else []), k)
         items = []
         for j, d in enumerate(docs):
             items.append((f"g{'_'.join(names)}_{j}", concretise.graph_doc(d, use_all=(j % 3 == 0)), list(d["order"]), {"order": d["order"], "edges": d["edges"]}))
